@@ -151,6 +151,12 @@ def run(ctx, rep, tier):
                     cs = [sym_char() for _ in range(k)]
                     asm = [pred(cs[0])] + [word_char(c) for c in cs]
                     one("%s%s+%d%s" % (pre, kw, k, suf), sp(pre + kw + " ", asm) + cs + sp(suf, asm), asm, kw, cs)
+        # a word that opens a quote and never closes it is an ordinary (invalid) word: it is quoted whole
+        if kw in ("-uid", "-size", "-type", "-threads", "-mtime", "-perm") or not q:
+            for pre in PREFIXES[:2]:
+                cs = [sym_char() for _ in range(3)]
+                asm = [z3.Or(cs[0] == 34, cs[0] == 39)] + [word_char(c) for c in cs[1:]]
+                one("%s%s+unterminated-quote" % (pre, kw), sp(pre + kw + " ", asm) + cs, asm, kw, cs)
         samples.append(dict(keyword=kw, word_lengths=list(range(1, kmax + 1))))
     # (2) missing argument
     for kw in MISSING:
